@@ -37,6 +37,10 @@ static int fk_ready[FK_MAXFD];		/* explicit readiness (events driver) */
 static long long fk_clock_us = 1000000;	/* starts at 1 s so that nothing is "time zero" */
 static int fk_polls;			/* number of poll calls (runaway guard) */
 static int fk_maxpolls = 20000;
+/* A signal handler running while the loop is inside poll(2): armed by the driver for the next poll call.  1: the handler runs
+ * as poll returns its (normal) answer; 2: if poll would have to sleep, it is interrupted instead (-1 / EINTR, no answer). */
+static int fk_sig_armed;
+static void (*fk_sig_fn)(void);
 
 struct fk_sched { long long t; int fd; int flags; int done; };
 static struct fk_sched fk_sch[4096];
@@ -209,6 +213,18 @@ __wrap_poll(struct pollfd * fds, nfds_t n, int timeout)
 		}
 		if (nready > 0 || timeout == 0)
 			break;
+		if (fk_sig_armed == 2 && fk_sig_fn != NULL) {
+			fk_sig_armed = 0;
+			vt_begin("poll"); fprintf(vt_out, ",\"fds\":[");
+			for (i = 0; i < n; i++)
+				fprintf(vt_out, "%s[%d,%d]", i ? "," : "", fk_logical(fds[i].fd),
+				    ((fds[i].events & POLLIN) ? 1 : 0) | ((fds[i].events & POLLOUT) ? 2 : 0));
+			fprintf(vt_out, "]"); vt_int("timeout", timeout); vt_raw("ret", "[]");
+			FK_CLOCK("c0", c0); FK_CLOCK("c1", fk_clock_us); vt_bool("blocked", 0); vt_bool("eintr", 1); vt_end();
+			fk_sig_fn();
+			errno = EINTR;
+			return (-1);
+		}
 		next = fk_next_sched();
 		if (deadline < 0 && next < 0) {
 			/* would block forever */
@@ -265,6 +281,10 @@ __wrap_poll(struct pollfd * fds, nfds_t n, int timeout)
 	}
 	fprintf(vt_out, "]");
 	vt_int("timeout", timeout); FK_CLOCK("c0", c0); FK_CLOCK("c1", fk_clock_us); vt_bool("blocked", 0); vt_end();
+	if (fk_sig_armed && fk_sig_fn != NULL) {
+		fk_sig_armed = 0;
+		fk_sig_fn();
+	}
 	return (nready);
 }
 
